@@ -1,6 +1,6 @@
 """ApiNamespace.normalize (C11): every listing of a namespace is put into an order that does not depend on the
 order of declaration -- the step that makes the description independent of definition and file order."""
-from pyvc.contract import contract, Ret, Obj
+from pyvc.contract import contract, Ret, Raise, Obj, AnyVal
 import spec.order as SO
 import stone.ir.api as api
 
@@ -36,3 +36,65 @@ class normalize:
                 and SO.sorted_by(self.annotation_types, 'name') and SO.permutation_of(self.annotation_types, old[4]))
 
     gen = staticmethod(_gen)
+
+
+# --------------------------------------------------------------------------------------------------
+# The routes' "own order", which normalize sorts by: alphabetical by name, then by version (C02:
+# "routes ... are alphabetical"; C11 / C12: the order does not depend on declaration order or identity)
+
+def _route_shape(r):
+    return not isinstance(r, api.ApiRoute) or (isinstance(r.name, str) and isinstance(r.version, int)
+                                                and not isinstance(r.version, bool))
+
+
+def _before(l, r):
+    return l.name < r.name or (l.name == r.name and l.version < r.version)
+
+
+def _route_gen(rng):
+    from pyvc import native as N
+
+    def route():
+        r = api.ApiRoute(rng.choice(['get', 'put', 'a', 'zz', 'Get']), rng.choice([1, 1, 2, 3]), None)
+        return r
+    pick = lambda: N.describe(rng.choice([route(), route(), route(), None, 3, 'get']))
+    return {'self': N.describe(route()), 'lhs': pick(), 'rhs': pick()}
+
+
+@contract('stone.ir.api:ApiRoute._compare', properties=['C02', 'C11', 'C12'], raises=[TypeError])
+class ApiRoute_compare:
+    """-1 / 0 / 1 by (name, version), names first; anything that is not a route is refused with TypeError"""
+    params = {'self': Obj(api.ApiRoute), 'lhs': AnyVal(), 'rhs': AnyVal()}
+
+    def requires(self, lhs, rhs):
+        return _route_shape(lhs) and _route_shape(rhs)
+
+    def expected(self, lhs, rhs):
+        if not isinstance(lhs, api.ApiRoute) or not isinstance(rhs, api.ApiRoute):
+            return Raise(TypeError)
+        if _before(lhs, rhs):
+            return Ret(-1)
+        if _before(rhs, lhs):
+            return Ret(1)
+        return Ret(0)
+
+    gen = staticmethod(_route_gen)
+
+
+@contract('stone.ir.api:ApiRoute.__lt__', properties=['C02', 'C11', 'C12'], raises=[TypeError])
+class ApiRoute_lt:
+    """what list.sort() asks of two routes (normalize: `self.routes.sort()`): strictly before by (name, version);
+    modular over the contract of _compare"""
+    params = {'self': Obj(api.ApiRoute), 'other': AnyVal()}
+
+    def requires(self, other):
+        return _route_shape(self) and _route_shape(other)
+
+    def expected(self, other):
+        if not isinstance(other, api.ApiRoute):
+            return Raise(TypeError)
+        return Ret(_before(self, other))
+
+    def gen(rng):
+        d = _route_gen(rng)
+        return {'self': d['self'], 'other': d['rhs']}
